@@ -19,4 +19,7 @@ pub trait EnergyFunction {
     fn energy(&self, coordinates: &[Point]) -> f64;
 
     fn add_gradient(&self, coordinates: &[Point], gradient: &mut Vec<Vector3D>);
+
+    #[cfg(optrs_verif)]
+    fn verif_describe(&self) -> crate::verif::TermDesc;
 }
